@@ -190,3 +190,12 @@ theories/DirBlock/DirBlockProofs.vos theories/DirBlock/DirBlockProofs.vok theori
 theories/Properties_C10.vo theories/Properties_C10.glob theories/Properties_C10.v.beautified theories/Properties_C10.required_vo: theories/Properties_C10.v theories/DirBlock/DirBlock.vo theories/DirBlock/DirBlockProofs.vo
 theories/Properties_C10.vio: theories/Properties_C10.v theories/DirBlock/DirBlock.vio theories/DirBlock/DirBlockProofs.vio
 theories/Properties_C10.vos theories/Properties_C10.vok theories/Properties_C10.required_vos: theories/Properties_C10.v theories/DirBlock/DirBlock.vos theories/DirBlock/DirBlockProofs.vos
+theories/FileIO/Chunks.vo theories/FileIO/Chunks.glob theories/FileIO/Chunks.v.beautified theories/FileIO/Chunks.required_vo: theories/FileIO/Chunks.v 
+theories/FileIO/Chunks.vio: theories/FileIO/Chunks.v 
+theories/FileIO/Chunks.vos theories/FileIO/Chunks.vok theories/FileIO/Chunks.required_vos: theories/FileIO/Chunks.v 
+theories/FileIO/ChunksProofs.vo theories/FileIO/ChunksProofs.glob theories/FileIO/ChunksProofs.v.beautified theories/FileIO/ChunksProofs.required_vo: theories/FileIO/ChunksProofs.v theories/FileIO/Chunks.vo
+theories/FileIO/ChunksProofs.vio: theories/FileIO/ChunksProofs.v theories/FileIO/Chunks.vio
+theories/FileIO/ChunksProofs.vos theories/FileIO/ChunksProofs.vok theories/FileIO/ChunksProofs.required_vos: theories/FileIO/ChunksProofs.v theories/FileIO/Chunks.vos
+theories/Properties_C09.vo theories/Properties_C09.glob theories/Properties_C09.v.beautified theories/Properties_C09.required_vo: theories/Properties_C09.v theories/FileIO/Chunks.vo theories/FileIO/ChunksProofs.vo
+theories/Properties_C09.vio: theories/Properties_C09.v theories/FileIO/Chunks.vio theories/FileIO/ChunksProofs.vio
+theories/Properties_C09.vos theories/Properties_C09.vok theories/Properties_C09.required_vos: theories/Properties_C09.v theories/FileIO/Chunks.vos theories/FileIO/ChunksProofs.vos
